@@ -27,11 +27,12 @@ static const std::vector<int> kEnergyElems = {E_Gravity, E_UniformGravity, E_TPS
     E_MobStop, E_TPDamper, E_MobDamper, E_GlobalDamper,
     E_HuntCrossley, E_ElasticFoundation, E_Compliant, E_ExpSpring, E_CableSpring};
 static const std::vector<int> kInteractionElems = {E_TPSpring, E_TPDamper, E_TPConst, E_Bushing,
-    E_HuntCrossley, E_ElasticFoundation, E_Compliant, E_SmoothSphere, E_ExpSpring, E_CableSpring};
+    E_HuntCrossley, E_ElasticFoundation, E_Compliant, E_SmoothSphere, E_ExpSpring, E_CableSpring, E_CableSpan};
 
 // ------------------------------------------------------------------------------------
 // C38: documented laws + parameter changes
-static void lawCompare(Ctx& c, FCase& k, const std::string& keyHead, const std::string& keyTail, const Obs& o, const Ref& ref,
+// returns false when a comparison with an ordinary (non element-specific) key failed
+static bool lawCompare(Ctx& c, FCase& k, const std::string& keyHead, const std::string& keyTail, const Obs& o, const Ref& ref,
                        const char* route, const Json& hist) {
     LazyWit wit{&k};
     auto W = [&](const char* what, double a, double b) {
@@ -41,9 +42,10 @@ static void lawCompare(Ctx& c, FCase& k, const std::string& keyHead, const std::
     for (int b = 0; b < k.nb; ++b) { double d = spMax(o.F[b] - ref.F[b]); if (!(d <= dF)) { dF = d; wb = b; } }
     double df = 0; for (int j = 0; j < k.nu; ++j) { double d = std::fabs(o.f[j] - ref.f[j]); if (!(d <= df)) df = d; }
     (void)wb;
-    c.check(keyHead + ":force" + keyTail, std::max(dF, df), E1 * ref.scale + 1e-300, W("body/mobility forces differ from the documented law", dF, df));
+    bool ok1 = c.check(keyHead + ":force" + keyTail, std::max(dF, df), E1 * ref.scale + 1e-300, W("body/mobility forces differ from the documented law", dF, df));
     std::string pk = k.elem->peKey();
-    c.check(pk.empty() ? keyHead + ":pe" + keyTail : pk, std::fabs(o.pe - ref.pe), E1 * ref.peScale + 1e-300, W("potential energy differs from the documented value", o.pe, ref.pe));
+    bool ok2 = c.check(pk.empty() ? keyHead + ":pe" + keyTail : pk, std::fabs(o.pe - ref.pe), E1 * ref.peScale + 1e-300, W("potential energy differs from the documented value", o.pe, ref.pe));
+    return ok1 && (ok2 || !pk.empty());
 }
 
 static void checkC38(Ctx& c, long idx, Rng& r) {
@@ -60,6 +62,7 @@ static void checkC38(Ctx& c, long idx, Rng& r) {
     Json hist = Json::arr();
 
     // (1) the law, through calcForceContribution at a Velocity-realized (PE: Position) state
+    bool lawOk = true;
     c.setPhase(en + " law/contrib");
     {
         Ref ref; k.reference(s, ref);
@@ -68,7 +71,7 @@ static void checkC38(Ctx& c, long idx, Rng& r) {
         double pePos = e.force.calcPotentialEnergyContribution(s2);
         k.m.sys.realize(s2, Stage::Velocity);
         Obs o = k.contribution(s2); o.pe = pePos;
-        lawCompare(c, k, "law:" + en, "", o, ref, "calcForceContribution", hist);
+        lawOk = lawCompare(c, k, "law:" + en, "", o, ref, "calcForceContribution", hist);
         e.checkGetters(c, k, s2, ref, "");
     }
     // (2) the law, through the realized system (force-subsystem caching included)
@@ -77,9 +80,12 @@ static void checkC38(Ctx& c, long idx, Rng& r) {
         k.m.sys.realize(s, Stage::Dynamics);
         Ref ref; k.reference(s, ref);
         Obs o = k.realized(s);
-        lawCompare(c, k, "law:" + en, ":realized", o, ref, "realize(Dynamics)", hist);
+        lawOk = lawCompare(c, k, "law:" + en, ":realized", o, ref, "realize(Dynamics)", hist) && lawOk;
     }
     c.cover(en + "/" + e.attach + "/" + e.regime + "/law");
+    // Attribute, then key: an element that already breaks its law is not taken through parameter changes
+    // (every later comparison would repeat the same root cause under an operation's key)
+    if (!lawOk) { c.obs("ops-not-judged-after-law-violation"); return; }
 
     // (3) parameter / enable / exclusion changes: the *new* law at the next realization.
     int nOps = 3;
@@ -119,10 +125,12 @@ static void checkC38(Ctx& c, long idx, Rng& r) {
             return std::string(ignored ? "param-ignored:" : "param:");
         };
         std::string opk = op.substr(0, op.find('('));
-        lawCompare(c, k, cls(oR) + en + ":" + opk, ":realized", oR, ref, "realize(Dynamics)", hist);
-        lawCompare(c, k, cls(oC) + en + ":" + opk, ":contrib", oC, ref, "calcForceContribution", hist);
+        bool okR = lawCompare(c, k, cls(oR) + en + ":" + opk, ":realized", oR, ref, "realize(Dynamics)", hist);
+        bool okC = lawCompare(c, k, cls(oC) + en + ":" + opk, ":contrib", oC, ref, "calcForceContribution", hist);
         if (!disabled) e.checkGetters(c, k, s, ref, ":after-op");
         c.cover(en + "/" + e.attach + "/" + e.regime + "/op:" + opk);
+        // a stale value survives later operations: the history is cut at the first operation that shows it
+        if (!okR || !okC) { c.obs("history-cut-after-violation"); break; }
     }
     if (c.wantSample()) c.sample(k.witness().set("history", hist));
 }
